@@ -38,14 +38,16 @@ class SymTab:
         self.odd = []       # has the symbol itself (odd power) been used in a z3 term on this path?
         self.rootmemo = {}
         self.linked = set()
+        self.bounds = {}
 
-    def new(self, name, kind, rad=None, pos=False):
+    def new(self, name, kind, rad=None, pos=False, lo=None, hi=None):
         i = len(self.kind)
         self.kind.append(kind)
         self.name.append('%s#%d' % (name, i))
         self.rad.append(rad)
-        self.pos.append(pos or kind == 'pos')
-        self.z3v.append(z3.Real('%s#%d' % (name, i)))
+        self.pos.append(pos or kind == 'pos' or (kind == 'dim' and lo is not None and lo >= 1))
+        self.bounds[i] = (lo, hi)
+        self.z3v.append(z3.Int('%s#%d' % (name, i)) if kind == 'dim' else z3.Real('%s#%d' % (name, i)))
         self.z3sq.append(z3.Real('%s#%d^2' % (name, i)) if kind == 'pos' and SQUARE_VARS else None)
         self.odd.append(False)
         return i
@@ -335,11 +337,16 @@ class P:
         return None
 
     # ---- z3
+    def is_int_poly(self):
+        T = tab()
+        return all(c.denominator == 1 for c in self.t.values()) and all(T.kind[s] == 'dim' and e > 0 for m in self.t for s, e in m)
+
     def to_z3(self):
         T = tab()
         terms = []
+        ip = self.is_int_poly()
         for m, c in sorted(self.t.items()):
-            t = z3.RealVal(c)
+            t = z3.IntVal(int(c)) if ip else z3.RealVal(c)
             for s, e in m:
                 v = T.z3v[s]
                 sq = T.z3sq[s]
@@ -357,11 +364,85 @@ class P:
                     t = t * f if e > 0 else t / f
             terms.append(t)
         if not terms:
-            return z3.RealVal(0)
+            return z3.IntVal(0) if ip else z3.RealVal(0)
         r = terms[0]
         for t in terms[1:]:
             r = r + t
         return r
+
+    # ---- integer-like behaviour of dimension polynomials (shape level)
+    def _intdiv(self, o, want):
+        o = P.lift(o)
+        if o is None:
+            return NotImplemented
+        oc = o.const_value() if o.is_const() else None
+        if oc is not None and oc == 0:
+            raise ZeroDivisionError('integer division or modulo by zero')
+        if oc is not None and oc == 1:
+            return self if want == 'q' else 0
+        q = poly_divide(self, o)
+        if q is not None and (not _isinstance(q, P) or all(c.denominator == 1 for c in q.t.values())):
+            return q if want == 'q' else 0
+        # opaque quotient / remainder symbols tied by self == o*q + r, 0 <= r < o  (o > 0 assumed, as for sizes)
+        T = tab()
+        key = ('div', self.key(), o.key())
+        if key not in T.rootmemo:
+            qi = T.new('quo', 'dim', lo=None, hi=None)
+            ri = T.new('rem', 'dim', lo=0, hi=None)
+            T.rootmemo[key] = (qi, ri)
+            ctx = cur()
+            register_side(self.symbols() | o.symbols())
+            oz, sz = o.to_z3(), self.to_z3()
+            ctx.pc.append(z3.And(oz > 0, sz == oz * T.z3v[qi] + T.z3v[ri], T.z3v[ri] >= 0, T.z3v[ri] < oz))
+            done = getattr(ctx, '_side_done', None)
+            if done is not None:
+                done.add(qi)
+                done.add(ri)
+        qi, ri = T.rootmemo[key]
+        return P.sym(qi) if want == 'q' else P.sym(ri)
+
+    def __floordiv__(self, o):
+        return self._intdiv(o, 'q')
+
+    def __rfloordiv__(self, o):
+        return P.lift(o)._intdiv(self, 'q')
+
+    def __mod__(self, o):
+        return self._intdiv(o, 'r')
+
+    def __rmod__(self, o):
+        return P.lift(o)._intdiv(self, 'r')
+
+    def concretize(self):
+        """fork over the feasible integer values (solver-guided)"""
+        if self.is_const():
+            c = self.const_value()
+            return int(c)
+        ctx = cur()
+        register_side(self.symbols())
+        t = self.to_z3()
+        for _ in range(256):
+            st_, m = ctx.check([], 10000)
+            ctx.stats.final_queries -= 1
+            if st_ == 'sat':
+                ctx.stats.final_sat -= 1
+            elif st_ == 'unsat':
+                ctx.stats.final_unsat -= 1
+            else:
+                ctx.stats.final_unknown -= 1
+            if st_ != 'sat':
+                unsupported('cannot concretise a symbolic dimension (%s)' % st_)
+            val = m.eval(t, model_completion=True)
+            val = val.as_long() if z3.is_int_value(val) else int(Fraction(val.numerator_as_long(), val.denominator_as_long()))
+            if ctx.branch(t == val):
+                return val
+        unsupported('dimension concretisation exceeded 256 values')
+
+    def __index__(self):
+        return self.concretize()
+
+    def __int__(self):
+        return self.concretize()
 
     def cleared(self):
         """multiply by the positive monomial that clears negative exponents, then reduce"""
@@ -445,6 +526,8 @@ class P:
     def __float__(self):
         if self.is_const():
             return float(self.const_value())
+        if self.is_int_poly():
+            return float(self.concretize())
         unsupported('float() of a symbolic A-scalar')
 
     def __repr__(self):
@@ -520,6 +603,12 @@ def register_side(symbols):
                 ctx.pc.append(v > 0)
         elif k == 'sign':
             ctx.pc.append(z3.Or(v == 1, v == -1))
+        elif k == 'dim':
+            lo, hi = T.bounds.get(s, (None, None))
+            if lo is not None:
+                ctx.pc.append(v >= lo)
+            if hi is not None:
+                ctx.pc.append(v <= hi)
         elif k == 'root':
             rad = T.rad[s]
             ctx.pc.append(z3.And(v > 0 if T.pos[s] else v >= 0, v * v == rad.to_z3()))
@@ -539,6 +628,10 @@ def _link_square(s):
 
 def _has_neg(p):
     return any(e < 0 for m in p.t for _, e in m)
+
+
+def new_dim(name, lo=1, hi=None):
+    return P.sym(tab().new(name, 'dim', lo=lo, hi=hi))
 
 
 def new_pos(name):
